@@ -313,7 +313,20 @@ func (so SortOrder) RequiresDocID() bool {
 func (so SortOrder) RequiredFields() []string {
 	var rv []string
 	for _, soi := range so {
-		rv = append(rv, soi.RequiresFields()...)
+		for _, field := range soi.RequiresFields() {
+			// list every field once, the doc values of a field
+			// listed twice would be visited twice for every hit
+			found := false
+			for _, existing := range rv {
+				if existing == field {
+					found = true
+					break
+				}
+			}
+			if !found {
+				rv = append(rv, field)
+			}
+		}
 	}
 	return rv
 }
